@@ -28,7 +28,7 @@ def mkf(calls):
         calls.append((a, b)); return 1000 * a + b
     return f
 
-def table(c, name, n, two = False):
+def table(c, name, n, two = False, jfirst = False):
     from pyg_base import dictable
     ks = [c.int('%s.k%d' % (name, i), -3, 3) for i in range(n)]
     for i in range(n):
@@ -37,6 +37,7 @@ def table(c, name, n, two = False):
     cols = dict(k = ks)
     if two: cols['j'] = [c.int('%s.j%d' % (name, i), 0, 1) for i in range(n)]
     cols[name] = vs
+    if two and jfirst: cols = dict(j = cols['j'], k = cols['k'], **{name: vs})           # the key columns listed in another order than `on`
     return dictable({k: list(v) for k, v in cols.items()}), cols
 
 def lookup(cols, name, key, two):
@@ -74,13 +75,13 @@ def h_scalar(c):
     r = p(a = x, b = y)
     c.check('all-scalar-inputs-return-f-itself', r == 1000 * x + y and len(calls) == 1)
 
-def h_tables(na, nb, b_scalar, two, default):
+def h_tables(na, nb, b_scalar, two, default, jfirst = False):
     def h(c):
         from pyg_base import perdictable, dictable
         calls = []; kw = dict(on = ['k', 'j'] if two else 'k')
         if default: kw['defaults'] = dict(b = 7)
         p = perdictable(mkf(calls), **kw)
-        A, ac = table(c, 'a', na, two)
+        A, ac = table(c, 'a', na, two, jfirst)
         if b_scalar: B = c.int('b', -9, 9); bc = None
         else: B, bc = table(c, 'b', nb, two)
         r = p(a = A, b = B)
@@ -159,6 +160,8 @@ def obligations(tier):
         obs.append(Ob('tables.%d.scalar-b' % na, h_tables(na, 0, True, False, False), setup = setup, budget_s = 300, desc = 'a table (%d rows), b scalar (broadcast)' % na))
     for na, nb in [(1, 1), (2, 1)] + ([] if q else [(2, 2)]):
         obs.append(Ob('two-keys.%dx%d' % (na, nb), h_tables(na, nb, False, True, False), setup = setup, budget_s = 300 if q else 1500, desc = 'two key columns, %d x %d rows' % (na, nb)))
+    for na, nb in [(2, 1), (2, 2)]:
+        obs.append(Ob('two-keys.j-first.%dx%d' % (na, nb), h_tables(na, nb, False, True, False, True), setup = setup, budget_s = 300 if q else 1500, desc = 'two key columns, the first table lists them in the reverse of `on`, %d x %d rows: rows sorted by `on`' % (na, nb)))
     for na, nd, ne in [(1, 0, 0), (1, 1, 1), (1, 2, 1), (2, 1, 1), (2, 2, 1)] + ([] if q else [(2, 1, 2), (2, 2, 2)]):
         for i, k0 in enumerate(['past', 'future', 'none'] if ne else ['-']):
             obs.append(Ob('cache.%d.%d.%d.%s' % (na, nd, ne, k0), h_cache(na, nd, ne), setup = setup, pins = {'e.kind0': i} if ne else None, budget_s = 400 if q else 2400,
